@@ -66,6 +66,7 @@ var atoms = []string{".", ".a", ".b", ".c", ".x", ".a.b", ".[0]", ".[]", "..", "
 	// records of unequal width (for the row-wise encoders), the context itself in a union under a binding / eval
 	`("a.5] = 1" | from_props)`, `("7]=v" | from_props)`, `("p[0] = x" | from_props)`,
 	`(.a head_comment = "\n")`, `(. head_comment = "")`, `(.a line_comment = "\n")`, `(. head_comment = "#")`, `(.a foot_comment = "\n")`, `(.[0] head_comment = "\n")`,
+	`eval(.a)`, `eval(.b)`, `eval(.c)`, `eval(.d)`,
 	`(.a = .b)`, `(.a = .b | .a.k)`, `(.[0] = .[1] | .[0][0])`, `(.a |= .c.d)`, `(.a = .c.d | .a)`,
 	`{.a, .b}`, `{.[]}`, `{.b, .a}`, `{(.a, .b)}`, `{.. }`,
 	`[{"a":1,"b":2},{"a":3}]`, `[{"a":1,"b":2,"c":3},{"c":4},{}]`, `[[1,2,3],[4]]`, `(., 1)`, `(., .a)`, `"., .a"`, `". , 1"`, `. as $x | (., 1)`, `eval("., .a")`, `eval(". , 1")`}
